@@ -20,6 +20,9 @@ pub struct Case {
     pub bal_b: Uint128,
     pub bal_third: Uint128,
     pub bal_junk: Uint128,
+    /// a listed third coin whose denom sorts before the bSei reward coin
+    #[serde(default)]
+    pub bal_ibc: Uint128,
     /// the bonded pair the hub passes
     pub bonded_b: Uint128,
     pub bonded_st: Uint128,
@@ -70,18 +73,19 @@ pub fn strategy() -> BoxedStrategy<Case> {
     (
         rate_grid(),
         prop_oneof![2 => Just(Dec::new(ONE)), 5 => price_strategy()],
-        (magnitude(), magnitude(), prop_oneof![3 => Just(Uint128::zero()), 1 => magnitude()], prop_oneof![3 => Just(Uint128::zero()), 1 => magnitude()]),
+        (magnitude(), magnitude(), prop_oneof![3 => Just(Uint128::zero()), 1 => magnitude()], prop_oneof![3 => Just(Uint128::zero()), 1 => magnitude()], prop_oneof![2 => Just(Uint128::zero()), 1 => magnitude()]),
         (magnitude(), magnitude()),
         proptest::collection::vec(rate_update(), 0..3),
-        prop_oneof![3 => Just(vec![]), 2 => proptest::collection::vec((0u8..4, prop_oneof![3 => Just(true), 1 => Just(false)]), 1..4)],
+        prop_oneof![3 => Just(vec![]), 2 => proptest::collection::vec((0u8..5, prop_oneof![3 => Just(true), 1 => Just(false)]), 1..4)],
     )
-        .prop_map(|(keeper_rate, price, (bal_st, bal_b, bal_third, bal_junk), (bonded_b, bonded_st), rate_updates, denom_updates)| Case {
+        .prop_map(|(keeper_rate, price, (bal_st, bal_b, bal_third, bal_junk, bal_ibc), (bonded_b, bonded_st), rate_updates, denom_updates)| Case {
             keeper_rate,
             price,
             bal_st,
             bal_b,
             bal_third,
             bal_junk,
+            bal_ibc,
             bonded_b,
             bonded_st,
             rate_updates,
@@ -212,10 +216,10 @@ impl Prop for C17 {
         }
         let rate = cur.dec();
         // ---- swap-denom list updates: a coin is considered iff it is listed, however often it was added
-        let mut listed = [true, true, true, false];
+        let mut listed = [true, true, true, false, true];
         for (ci, add) in &c.denom_updates {
-            let ci = (*ci as usize) % 4;
-            let denom = [USEI, KUSD, UATOM, UJUNK][ci];
+            let ci = (*ci as usize) % 5;
+            let denom = [USEI, KUSD, UATOM, UJUNK, UIBC][ci];
             let add = *add || ci < 2; // the reward coins are never removed (E3)
             if let Err(e) = w.tx(OWNER, DISP, &DExec::UpdateSwapDenom { swap_denom: denom.into(), is_add: add }, &[]) {
                 out.fail(v("swap-denom-update-rejected", format!("owner's UpdateSwapDenom({}, {}) failed: {}", denom, add, e)));
@@ -226,6 +230,11 @@ impl Prop for C17 {
         }
         // ---- balances
         let (a_st, a_b, a_third, a_junk) = (c.bal_st.u128(), c.bal_b.u128(), c.bal_third.u128(), c.bal_junk.u128());
+        let a_ibc = c.bal_ibc.u128();
+        w.mint(DISP, UIBC, a_ibc);
+        if a_ibc > 0 && a_b > 0 {
+            out.label("third_coin_sorting_before_bsei_coin");
+        }
         w.mint(DISP, USEI, a_st);
         w.mint(DISP, KUSD, a_b);
         w.mint(DISP, UATOM, a_third);
@@ -253,7 +262,7 @@ impl Prop for C17 {
             Ok(e) => e,
             Err(e) => {
                 let sig = if e.contains("insufficient funds") { "swap-offers-more-than-held" } else { "swap-fails" };
-                out.fail(v(sig, format!("SwapToRewardDenom(b {}, st {}) with balances {} usei / {} kusd / {} uatom at price {} fails: {}", b, st, a_st, a_b, a_third, c.price.dec(), e)));
+                out.fail(v(sig, format!("SwapToRewardDenom(b {}, st {}) with balances {} usei / {} kusd / {} uatom / {} ibc at price {} fails: {}", b, st, a_st, a_b, a_third, a_ibc, c.price.dec(), e)));
                 return out;
             }
         };
@@ -273,9 +282,13 @@ impl Prop for C17 {
             }
         }
         // listed third coins are exchanged 1:1 into the bSei reward coin first
-        let avail_b = a_b + if listed[2] { a_third } else { 0 } + if listed[3] { a_junk } else { 0 };
+        let avail_b = a_b + if listed[2] { a_third } else { 0 } + if listed[3] { a_junk } else { 0 } + if listed[4] { a_ibc } else { 0 };
         if offered_usei > a_st || offered_kusd > avail_b {
             out.fail(v("swap-offers-more-than-held", format!("offered {} usei / {} kusd with {} / {} available", offered_usei, offered_kusd, a_st, avail_b)));
+            return out;
+        }
+        if w.balance(DISP, UIBC) != if listed[4] { 0 } else { a_ibc } {
+            out.fail(v("third-coin-not-swapped", format!("{} {} left on the dispatcher", w.balance(DISP, UIBC), UIBC)));
             return out;
         }
         if w.balance(DISP, UATOM) != 0 && a_third > 0 && listed[2] {
